@@ -97,7 +97,7 @@ func judgeC10(c *Case, tr *hx.Trace, w *ref.World) []Verdict {
 }
 
 func C10(rep *ev.Reporter, tier string) {
-	bud := NewBudget(50 * time.Second)
+	bud := NewBudget(150 * time.Second)
 	maxLen := 2
 	if tier == "thorough" {
 		bud = NewBudget(9 * time.Minute)
